@@ -18,7 +18,7 @@ fn gcd(a: i64, b: i64) -> i64 {
 /// Argument spellings: (text, exact value)
 fn args(tier: Tier) -> Vec<(String, BigRational)> {
     let mut v: Vec<(String, BigRational)> = Vec::new();
-    let (pm, qm) = tier.pick((40, 8), (60, 12));
+    let (pm, qm) = tier.pick((40, 8), (400, 40));
     for q in 1..=qm {
         for p in -pm..=pm {
             if gcd(p, q) != 1 {
@@ -249,6 +249,6 @@ impl Prop for C10 {
         }
     }
     fn bounds(&self, tier: Tier) -> serde_json::Value {
-        serde_json::json!({"p_max": tier.pick(40, 60), "q_max": tier.pick(8, 12), "digits": "-6..6", "profiles": ["release", "verif-debug"]})
+        serde_json::json!({"p_max": tier.pick(40, 400), "q_max": tier.pick(8, 40), "digits": "-6..6", "profiles": ["release", "verif-debug"]})
     }
 }
